@@ -804,6 +804,22 @@ def op_isnan(g):
 
 
 def op_dropout(g):
+    if g.opset >= 12 and g.depth == 0 and g.rng.random() < 0.2:
+        # training_mode only known at run time (a BOOL graph input): must not be simplified either way
+        x = g.pick(lambda v: _f32(v) and all(a.size >= 16 for a in v.arrs))
+        tm = next((v for v in g.inputs if v.dtype.kind == "b" and v.rank == 0), None)
+        if tm is None:
+            if len(g.inputs) >= 5:
+                raise Bail("inputs")
+            tm = g.new_input(dtype=BOOL, shape=[])
+        g.hit("motif:dropout_runtime_training_mode")
+        g._mark_nondet = True
+        try:
+            out = g.add("Dropout", [x, g.const(np.array(0.5, dtype=F32)), tm], mag=x.mag * 2)
+        finally:
+            g._mark_nondet = False
+        g.force_out.append(out)
+        return out
     x = g.pick(_f32)
     ins = [x]
     r = g.rng.random()
@@ -998,8 +1014,31 @@ def m_shape_chain(g):
     """Shape -> Gather/Slice -> (Unsqueeze/Concat) -> Reshape/Expand/ConstantOfShape."""
     x = g.pick(lambda v: v.rank >= 2)
     s = g.add("Shape", [x], mag=8)
-    form = g.rng.choice(["gather_reshape", "slice_concat_reshape", "cos", "abs_shape", "size_mul", "gather_add", "cast_gather", "cast_gather"])
+    form = g.rng.choice(["gather_reshape", "slice_concat_reshape", "cos", "abs_shape", "size_mul", "gather_add", "cast_gather", "cast_gather",
+                         "rank2_gather", "rank2_gather"])
     g.hit("motif:shape_chain:" + form)
+    if form == "rank2_gather":
+        # the shape vector is lifted to rank 2 (Unsqueeze / Reshape) and then indexed along axis 0: the result is a ROW or a
+        # [1,1] element, not a dim — a folder that keeps treating the value as a shape vector gets rank and contents wrong
+        lift = g.rng.choice(["unsq0", "unsq1", "reshape_row", "reshape_col"])
+        if lift == "unsq0":
+            u = g.add("Unsqueeze", [s, g.i64([0])], mag=8) if g.opset >= 13 else g.add("Unsqueeze", [s], axes=[0], mag=8)
+            idx = g.i64([0])
+        elif lift == "unsq1":
+            u = g.add("Unsqueeze", [s, g.i64([1])], mag=8) if g.opset >= 13 else g.add("Unsqueeze", [s], axes=[1], mag=8)
+            idx = g.i64([g.rng.randrange(x.rank)])
+        elif lift == "reshape_row":
+            u = g.add("Reshape", [s, g.i64([1, x.rank])], mag=8)
+            idx = g.i64([0])
+        else:
+            u = g.add("Reshape", [s, g.i64([x.rank, 1])], mag=8)
+            idx = g.i64([g.rng.randrange(x.rank)])
+        r = g.add("Gather", [u, idx], axis=0, mag=8)
+        if g.rng.random() < 0.5:
+            r = g.add("ReduceProd", [r], keepdims=0, mag=4096)
+        if g.depth == 0:
+            g.force_out.append(r)
+        return r
     if form == "cast_gather":
         # Shape -> Cast(non-INT64) -> Gather(1-D const indices): the gathered value is NOT an int64 dim any more
         to = g.rng.choice([TP.FLOAT, TP.INT32, TP.BOOL, TP.DOUBLE])
@@ -1327,10 +1366,42 @@ BASIC_OPS = [
     (op_dropout, 2), (op_trilu, 1), (op_onehot, 1), (op_topk, 1), (op_nonzero, 1), (op_conv, 2), (op_pool, 1),
     (op_layernorm, 1), (op_sequence, 3),
 ]
+def m_sibling_ifs(g):
+    """k sibling If nodes with a constant (foldable) condition whose branches each own an initializer of the SAME name:
+    sibling scopes may reuse names; an optimizer that inlines the taken branches must keep them apart."""
+    if g.depth != 0:
+        raise Bail("depth")
+    x = g.pick(lambda v: v.dtype == np.dtype(F32) and v.clean and v.mag < 1e6 and not v.seq)
+    k = g.rng.choice([2, 3, 3, 4])
+    wname = g.fresh("w") + "_shared"
+    how = g.rng.choice(["init", "node", "size_eq"])
+    if how == "size_eq":
+        # the exporter idiom: Equal(Size(Shape(x)), rank) — constant after shape folding
+        sz = g.add("Size", [g.add("Shape", [x], mag=8)], mag=8)
+        cond = g.add("Equal", [sz, g.const(np.array(x.rank, dtype=np.int64))], mag=1, clean=True)
+    else:
+        cond = g.const(np.array(g.rng.random() < 0.7), how=how)
+    g.hit(f"motif:sibling_ifs:{k}:{how}")
+    acc = None
+    for j in range(k):
+        graphs = []
+        for b, opn in enumerate(("Add", "Mul")):
+            o = g.fresh("t")
+            w = nph.from_array(np.array(float(j + 1 + 3 * b), dtype=F32), wname)
+            graphs.append(oh.make_graph([oh.make_node(opn, [x.name, wname], [o])], g.fresh("body"), [],
+                                        [oh.make_empty_tensor_value_info(o)], initializer=[w]))
+        out = g.fresh("t")
+        node = oh.make_node("If", [cond.name], [out], then_branch=graphs[0], else_branch=graphs[1])
+        v = g.add_nodes([node], [out], [cond, x], mag=x.mag * 8 + 8, tag="If")
+        acc = v if acc is None else g.add("Add", [acc, v], mag=acc.mag + v.mag)
+    g.force_out.append(acc)
+    return acc
+
+
 MOTIFS = [
     (m_noop_arith, 5), (m_cast_cast, 3), (m_reshape_reshape, 3), (m_transpose_transpose, 3), (m_clip_relu, 4),
     (m_shape_chain, 5), (m_identity_out, 3), (m_const_fold_chain, 5), (m_init_input_chain, 2), (m_cse, 2),
-    (m_unsq_unsq, 2), (m_flatten_reshape, 1), (m_random, 2),
+    (m_unsq_unsq, 2), (m_flatten_reshape, 1), (m_random, 2), (m_sibling_ifs, 1),
 ]
 CONTROL = [(op_if, 3), (op_loop, 2), (op_function_call, 2)]
 
@@ -1400,6 +1471,9 @@ def finish(g, n_outputs=None, name="gen"):
     for v in outs:
         if v.seq:
             gout.append(oh.make_tensor_sequence_value_info(v.name, np2tp(v.dtype), None))
+        elif v.kind == "node" and v.decl is not None:
+            # a motif that knows the symbolic shape of its result (same shape as one of the inputs) declares it
+            gout.append(oh.make_tensor_value_info(v.name, np2tp(v.dtype), list(v.decl)))
         elif v.static():
             gout.append(oh.make_tensor_value_info(v.name, np2tp(v.dtype), list(v.shape)))
         else:
@@ -1510,6 +1584,23 @@ def s_reshape_by_shape(g):
     return g.add("Reshape", [y, g.add("Concat", [a, b], axis=0, mag=8)], mag=x.mag)
 
 
+def s_reshape_roundtrip_repeated(g):
+    """x with a REPEATED symbolic dim ([N,N], [N,N,3], [2,M,M]) is flattened, passed through a unary op and reshaped back
+    with Shape(x): the output shape has ONE distinct symbol but TWO unknown dims (no single -1 can stand for both)."""
+    if g.depth != 0 or len(g.inputs) >= 5:
+        raise Bail("inputs")
+    sym = g.rng.choice(SYMS)
+    shape = g.rng.choice([[sym, sym], [sym, sym, 3], [2, sym, sym], [sym, 1, sym]])
+    x = g.new_input(dtype=F32, shape=shape)
+    g.hit("motif:reshape_roundtrip_repeated")
+    f = g.add("Reshape", [x, g.i64([-1])], mag=x.mag)
+    u = g.add(g.rng.choice(["Relu", "Neg", "Abs"]), [f], mag=x.mag)
+    r = g.add("Reshape", [u, g.add("Shape", [x], mag=8)], mag=x.mag)
+    r.decl = list(shape)     # same shape as x, by construction: the graph output is declared with the repeated symbol
+    g.force_out.append(r)
+    return r
+
+
 def s_slice_by_shape(g):
     """Slice whose ends come from Shape (collapse-slice rules)."""
     x = g.pick(lambda v: v.rank >= 1)
@@ -1576,7 +1667,7 @@ def s_squeeze_unsqueeze(g):
 
 SYM_MOTIFS = [
     (s_expand_before_binary, 8), (s_reshape_by_shape, 8), (s_slice_by_shape, 5), (s_scatter_all, 3), (s_matmul_reshape, 2),
-    (s_size_range, 2), (s_squeeze_unsqueeze, 2), (m_shape_chain, 8), (op_expand, 5), (op_reshape, 4), (op_shape, 3),
+    (s_size_range, 2), (s_squeeze_unsqueeze, 2), (s_reshape_roundtrip_repeated, 2), (m_shape_chain, 8), (op_expand, 5), (op_reshape, 4), (op_shape, 3),
     (op_constant_of_shape, 2), (m_noop_arith, 3), (m_identity_out, 2), (op_gather, 2), (op_concat, 2), (op_slice, 2),
 ]
 SYM_TABLE = [(f, w) for f, w in BASIC_OPS if f not in (op_conv, op_pool, op_sequence, op_topk, op_nonzero)] + SYM_MOTIFS + \
